@@ -143,3 +143,455 @@ Proof.
            rewrite IHs by assumption.
            f_equal. f_equal; rewrite ?byte_len_snoc; lia.
 Qed.
+
+Lemma length_le_byte_len : forall s, List.length s <= byte_len s.
+Proof. induction s as [|c s IH]; simpl; [lia | pose proof (len_utf8_pos c); lia]. Qed.
+
+Lemma is_blank_false : forall c, is_blank c = false -> is_sptab c = false /\ is_nl c = false.
+Proof. intros c H. unfold is_blank in H. apply orb_false_iff in H. exact H. Qed.
+
+(* parse_ws stops at a solid character *)
+Lemma ws_stop : forall fixed pre rest nn inc fuel f,
+  starts_solid rest ->
+  ws_loop fixed (pre ++ rest) (byte_len (pre ++ rest)) fuel (S f) nn (byte_len pre) inc
+  = Done (Ok (byte_len pre, nn)).
+Proof.
+  intros fixed pre rest nn inc fuel f Hs. destruct rest as [|c r].
+  - cbn [ws_loop]. rewrite app_nil_r, Nat.ltb_irrefl. reflexivity.
+  - destruct Hs as [Hb Hsl]. apply is_blank_false in Hb. destruct Hb as [Hst Hnl].
+    cbn [ws_loop]. rewrite lt_len_app. cbn [negb]. rewrite next_char_app. cbn [obind].
+    rewrite Hst, Hnl.
+    destruct (c =? c_slash)%N eqn:Hc; [|reflexivity].
+    apply Neqb_true in Hc. subst c. specialize (Hsl eq_refl).
+    change (len_utf8 c_slash) with 1.
+    destruct r as [|d r'].
+    + rewrite byte_len_app. simpl byte_len. change (len_utf8 c_slash) with 1.
+      rewrite ?Nat.add_0_r. rewrite Nat.eqb_refl. reflexivity.
+    + destruct Hsl as [Hd1 Hd2].
+      replace (byte_len pre + 1 =? byte_len (pre ++ c_slash :: d :: r')) with false.
+      2:{ symmetry. apply Nat.eqb_neq. rewrite byte_len_app. simpl byte_len.
+          change (len_utf8 c_slash) with 1. pose proof (len_utf8_pos d). lia. }
+      replace (byte_len pre + 1) with (byte_len (pre ++ [c_slash]))
+        by (rewrite byte_len_snoc; reflexivity).
+      rewrite (snoc_app pre c_slash (d :: r')). rewrite next_char_app. cbn [obind].
+      apply N.eqb_neq in Hd1. apply N.eqb_neq in Hd2. rewrite Hd1, Hd2. reflexivity.
+Qed.
+
+(* one layout item = one iteration of the outer loop *)
+Lemma ws_item : forall it, layout_item it -> forall pre tl nn inc fuel f,
+  (inc = false -> count_nl it = 0) ->
+  byte_len it <= fuel ->
+  let src := pre ++ it ++ tl in
+  ws_loop true src (byte_len src) fuel (S f) nn (byte_len pre) inc
+  = ws_loop true src (byte_len src) fuel f (nn + count_nl it) (byte_len pre + byte_len it) inc.
+Proof.
+  intros it Hit pre tl nn inc fuel f Hinc Hfuel src. subst src.
+  destruct Hit as [c Hc | body nl Hbody Hnl | body Hclose].
+  - (* blank *)
+    cbn [app]. cbn [ws_loop]. rewrite lt_len_app. cbn [negb]. rewrite next_char_app. cbn [obind].
+    simpl byte_len. rewrite Nat.add_0_r. rewrite count_nl_cons. change (count_nl (@nil N)) with 0.
+    unfold is_blank in Hc. destruct (is_sptab c) eqn:Hst.
+    + assert (Hn : is_nl c = false).
+      { unfold is_sptab in Hst. apply orb_true_iff in Hst.
+        destruct Hst as [H|H]; apply Neqb_true in H; subst c; reflexivity. }
+      rewrite Hn. rewrite ?Nat.add_0_r. reflexivity.
+    + cbn [orb] in Hc. rewrite Hc. destruct inc.
+      * cbn [negb]. f_equal. lia.
+      * exfalso. specialize (Hinc eq_refl). rewrite count_nl_cons, Hc in Hinc. lia.
+  - (* // comment *)
+    cbn [app]. cbn [ws_loop]. rewrite lt_len_app. cbn [negb]. rewrite next_char_app. cbn [obind].
+    destruct slash_not_blank as [H1 H2]. rewrite H1, H2. rewrite N.eqb_refl.
+    change (len_utf8 c_slash) with 1.
+    replace (byte_len pre + 1 =? byte_len (pre ++ c_slash :: c_slash :: (body ++ [nl]) ++ tl)) with false.
+    2:{ symmetry. apply Nat.eqb_neq. rewrite byte_len_app. simpl byte_len.
+        change (len_utf8 c_slash) with 1. lia. }
+    replace (byte_len pre + 1) with (byte_len (pre ++ [c_slash]))
+      by (rewrite byte_len_snoc; reflexivity).
+    rewrite (snoc_app pre c_slash). rewrite next_char_app. cbn [obind]. rewrite N.eqb_refl.
+    change (len_utf8 c_slash) with 1.
+    replace (byte_len (pre ++ [c_slash]) + 1) with (byte_len ((pre ++ [c_slash]) ++ [c_slash]))
+      by (rewrite byte_len_snoc; reflexivity).
+    rewrite (snoc_app (pre ++ [c_slash]) c_slash). rewrite slice_from_app. cbn [obind].
+    rewrite <- app_assoc. cbn [app].
+    rewrite line_comment_body by assumption.
+    f_equal.
+    + rewrite count_nl_cons, count_nl_cons. change (is_nl c_slash) with false. cbn [Nat.add].
+      rewrite count_nl_app. rewrite count_nl_cons, Hnl. change (count_nl (@nil N)) with 0.
+      assert (Hz : count_nl body = 0).
+      { clear - Hbody. induction body as [|c b IH]; [reflexivity|].
+        simpl in Hbody. apply andb_true_iff in Hbody. destruct Hbody as [Hc Hb].
+        rewrite count_nl_cons. apply negb_true_iff in Hc. rewrite Hc. apply IH. exact Hb. }
+      rewrite Hz. lia.
+    + rewrite !byte_len_snoc. simpl byte_len. change (len_utf8 c_slash) with 1.
+      rewrite byte_len_app. simpl byte_len. lia.
+  - (* /* */ comment *)
+    cbn [app]. cbn [ws_loop]. rewrite lt_len_app. cbn [negb]. rewrite next_char_app. cbn [obind].
+    destruct slash_not_blank as [H1 H2]. rewrite H1, H2. rewrite N.eqb_refl.
+    change (len_utf8 c_slash) with 1.
+    replace (byte_len pre + 1 =? byte_len (pre ++ c_slash :: c_star :: (body ++ [c_star; c_slash]) ++ tl)) with false.
+    2:{ symmetry. apply Nat.eqb_neq. rewrite byte_len_app. simpl byte_len.
+        change (len_utf8 c_slash) with 1. change (len_utf8 c_star) with 1. lia. }
+    replace (byte_len pre + 1) with (byte_len (pre ++ [c_slash]))
+      by (rewrite byte_len_snoc; reflexivity).
+    rewrite (snoc_app pre c_slash). rewrite next_char_app. cbn [obind].
+    change (c_star =? c_slash)%N with false. rewrite N.eqb_refl. cbv iota.
+    change (len_utf8 c_star) with 1.
+    replace (byte_len (pre ++ [c_slash]) + 1) with (byte_len ((pre ++ [c_slash]) ++ [c_star]))
+      by (rewrite byte_len_snoc; reflexivity).
+    rewrite (snoc_app (pre ++ [c_slash]) c_star).
+    assert (Hcnt : count_nl (c_slash :: c_star :: body ++ [c_star; c_slash]) = count_nl body).
+    { rewrite count_nl_cons, count_nl_cons, count_nl_app. change (is_nl c_slash) with false.
+      change (is_nl c_star) with false. unfold count_nl at 2. simpl. lia. }
+    assert (Hfn : firstn (List.length body) (body ++ [c_star; c_slash]) = body).
+    { rewrite firstn_app, Nat.sub_diag, firstn_all. simpl. apply app_nil_r. }
+    assert (Hfn2 : firstn (List.length body + 2) (body ++ [c_star; c_slash]) = body ++ [c_star; c_slash]).
+    { apply firstn_all2. rewrite app_length. simpl. lia. }
+    rewrite (block_scan_fixed (body ++ [c_star; c_slash]) ((pre ++ [c_slash]) ++ [c_star]) tl
+               (List.length body) nn inc fuel Hclose).
+    + cbn [obind]. rewrite Hfn, Hfn2, Hcnt. f_equal.
+      rewrite !byte_len_snoc. simpl byte_len. change (len_utf8 c_slash) with 1.
+      change (len_utf8 c_star) with 1. lia.
+    + intros Hi. rewrite Hfn. specialize (Hinc Hi). rewrite Hcnt in Hinc. exact Hinc.
+    + pose proof (length_le_byte_len body) as Hl. simpl byte_len in Hfuel.
+      rewrite byte_len_app in Hfuel. simpl byte_len in Hfuel.
+      change (len_utf8 c_slash) with 1 in Hfuel. change (len_utf8 c_star) with 1 in Hfuel. lia.
+Qed.
+
+Lemma layout_item_nonempty : forall it, layout_item it -> 1 <= byte_len it.
+Proof.
+  intros it H. destruct H as [c _ | body nl _ _ | body _]; simpl;
+    pose proof (len_utf8_pos c_slash); try pose proof (len_utf8_pos c); lia.
+Qed.
+
+Lemma ws_layout_gen : forall l, layout_text l -> forall pre rest nn inc fuel f,
+  starts_solid rest -> (inc = false -> count_nl l = 0) ->
+  byte_len l + 1 <= f -> byte_len l <= fuel ->
+  let src := pre ++ l ++ rest in
+  ws_loop true src (byte_len src) fuel f nn (byte_len pre) inc
+  = Done (Ok (byte_len pre + byte_len l, nn + count_nl l)).
+Proof.
+  intros l Hl. induction Hl as [|it l' Hit Hl' IH]; intros pre rest nn inc fuel f Hs Hinc Hf Hfuel src; subst src.
+  - destruct f as [|f]; [simpl in Hf; lia|]. cbn [app]. rewrite ws_stop by assumption.
+    simpl. rewrite !Nat.add_0_r. reflexivity.
+  - destruct f as [|f]; [lia|].
+    rewrite byte_len_app in Hf, Hfuel. rewrite count_nl_app in Hinc.
+    pose proof (layout_item_nonempty it Hit) as Hne.
+    rewrite <- app_assoc.
+    rewrite (ws_item it Hit pre (l' ++ rest) nn inc fuel f) by (try (intros Hi; specialize (Hinc Hi)); lia).
+    replace (byte_len pre + byte_len it) with (byte_len (pre ++ it)) by apply byte_len_app.
+    rewrite (app_assoc pre it (l' ++ rest)).
+    rewrite IH by (try (intros Hi; specialize (Hinc Hi)); try assumption; lia).
+    rewrite byte_len_app, byte_len_app, count_nl_app. f_equal. f_equal. f_equal; lia.
+Qed.
+
+Lemma ws_skips_layout_fixed : ws_skips_layout_fixed_stmt.
+Proof.
+  intros pre l rest nn inc Hl Hs Hinc src. subst src. unfold parse_ws, fuel_for.
+  apply ws_layout_gen; try assumption;
+    rewrite !byte_len_app; lia.
+Qed.
+
+(* ======================================================================== *)
+(*  Lexical round trips                                                       *)
+(* ======================================================================== *)
+Lemma take_bytes_0 : forall s, take_bytes s 0 = Done [].
+Proof. destruct s; reflexivity. Qed.
+
+Lemma take_bytes_app : forall b c, take_bytes (b ++ c) (byte_len b) = Done b.
+Proof.
+  induction b as [|x b IH]; intros c.
+  - apply take_bytes_0.
+  - simpl app. simpl byte_len. pose proof (len_utf8_pos x) as Hx.
+    destruct (len_utf8 x + byte_len b) as [|m] eqn:Hm; [lia|].
+    cbn [take_bytes]. rewrite <- Hm.
+    destruct (Nat.leb_spec (len_utf8 x) (len_utf8 x + byte_len b)); [|lia].
+    replace (len_utf8 x + byte_len b - len_utf8 x) with (byte_len b) by lia.
+    rewrite IH. reflexivity.
+Qed.
+
+Lemma slice_app : forall a b c,
+  slice (a ++ b ++ c) (byte_len a) (byte_len a + byte_len b) = Done b.
+Proof.
+  intros. unfold slice.
+  destruct (Nat.ltb_spec (byte_len a + byte_len b) (byte_len a)); [lia|].
+  rewrite slice_from_app. cbn [obind].
+  replace (byte_len a + byte_len b - byte_len a) with (byte_len b) by lia.
+  apply take_bytes_app.
+Qed.
+
+Ltac nbool :=
+  repeat match goal with
+         | H : (_ || _)%bool = true |- _ => apply orb_true_iff in H; destruct H as [H|H]
+         | H : (_ && _)%bool = true |- _ => apply andb_true_iff in H; destruct H
+         | H : (_ <=? _)%N = true |- _ => apply N.leb_le in H
+         | H : (_ =? _)%N = true |- _ => apply N.eqb_eq in H
+         end.
+
+Lemma ascii_len1 : forall c, (c < 128)%N -> len_utf8 c = 1.
+Proof. intros c H. unfold len_utf8. apply N.ltb_lt in H. rewrite H. reflexivity. Qed.
+
+Lemma is_alpha_ascii : forall c, is_alpha_ c = true -> (c < 128)%N.
+Proof. intros c H. unfold is_alpha_ in H. nbool; lia. Qed.
+Lemma is_digit_ascii : forall c, is_digit c = true -> (c < 128)%N.
+Proof. intros c H. unfold is_digit in H. nbool; lia. Qed.
+Lemma name_cont_ascii : forall c, name_cont c = true -> (c < 128)%N.
+Proof.
+  intros c H. unfold name_cont, name_start in H. nbool;
+    try (apply is_alpha_ascii; assumption); try (apply is_digit_ascii; assumption); lia.
+Qed.
+Lemma tok_cont_ascii : forall c, tok_cont c = true -> (c < 128)%N.
+Proof.
+  intros c H. unfold tok_cont in H. nbool; [apply is_alpha_ascii | apply is_digit_ascii]; assumption.
+Qed.
+
+Lemma byte_len_ascii : forall (p : N -> bool) s,
+  (forall c, p c = true -> (c < 128)%N) -> forallb p s = true -> byte_len s = List.length s.
+Proof.
+  intros p s Hp. induction s as [|c s IH]; intros H; [reflexivity|].
+  simpl in H. apply andb_true_iff in H. destruct H as [Hc Hs].
+  simpl. rewrite (ascii_len1 c) by (apply Hp; exact Hc). rewrite IH by exact Hs. reflexivity.
+Qed.
+
+Lemma count_while_app : forall p s rest,
+  forallb p s = true -> not_starting p rest -> count_while p (s ++ rest) = List.length s.
+Proof.
+  intros p s rest. induction s as [|c s IH]; intros Hs Hr.
+  - simpl. destruct rest as [|d r]; [reflexivity|]. simpl in *. rewrite Hr. reflexivity.
+  - simpl in Hs. apply andb_true_iff in Hs. destruct Hs as [Hc Hs]. simpl. rewrite Hc.
+    rewrite IH by assumption. reflexivity.
+Qed.
+
+Lemma parse_name_roundtrip : parse_name_roundtrip_stmt.
+Proof.
+  intros pre n rest Hn Hr src. subst src.
+  assert (Hsl : slice (pre ++ n ++ rest) (byte_len pre) (byte_len pre + byte_len n) = Done n)
+    by apply slice_app.
+  split; [|exact Hsl].
+  unfold parse_name. rewrite slice_from_app. cbn [obind].
+  destruct n as [|c r]; [discriminate Hn|]. simpl in Hn. apply andb_true_iff in Hn.
+  destruct Hn as [Hc Hrs].
+  assert (Hlen : byte_len (c :: r) = S (List.length r)).
+  { rewrite (byte_len_ascii name_cont (c :: r) name_cont_ascii).
+    - reflexivity.
+    - simpl. unfold name_cont at 1. rewrite Hc. exact Hrs. }
+  cbn [app re_name]. rewrite Hc. rewrite count_while_app by assumption.
+  rewrite <- Hlen. change (c :: r ++ rest) with ((c :: r) ++ rest). rewrite Hsl. reflexivity.
+Qed.
+
+Lemma tok_start_not_quote : forall c, tok_start c = true -> ((c =? c_dq) || (c =? c_sq))%N = false.
+Proof.
+  intros c H. unfold tok_start, is_alpha_ in H. apply orb_false_iff.
+  split; apply N.eqb_neq; unfold c_dq, c_sq; nbool; lia.
+Qed.
+
+Lemma parse_token_bare_roundtrip : parse_token_bare_roundtrip_stmt.
+Proof.
+  intros pre n rest Hn Hr src. subst src.
+  assert (Hsl : slice (pre ++ n ++ rest) (byte_len pre) (byte_len pre + byte_len n) = Done n)
+    by apply slice_app.
+  split; [|exact Hsl].
+  unfold parse_token. rewrite slice_from_app. cbn [obind].
+  destruct n as [|c r]; [discriminate Hn|]. simpl in Hn. apply andb_true_iff in Hn.
+  destruct Hn as [Hc Hrs].
+  assert (Hlen : byte_len (c :: r) = S (List.length r)).
+  { rewrite (byte_len_ascii tok_cont (c :: r) tok_cont_ascii).
+    - reflexivity.
+    - simpl. unfold tok_cont at 1. unfold tok_start in Hc. rewrite Hc. exact Hrs. }
+  cbn [app re_token]. rewrite (tok_start_not_quote c Hc). rewrite Hc.
+  rewrite count_while_app by assumption.
+  change (pre ++ c :: r ++ rest) with (pre ++ c :: (r ++ rest)). rewrite next_char_app. cbn [obind].
+  rewrite (tok_start_not_quote c Hc).
+  rewrite <- Hlen. change (pre ++ c :: (r ++ rest)) with (pre ++ (c :: r) ++ rest). rewrite Hsl.
+  cbn [obind]. unfold mk_span.
+  destruct (Nat.ltb_spec (byte_len pre + byte_len (c :: r)) (byte_len pre)); [lia|]. reflexivity.
+Qed.
+
+Lemma scan_quote_app : forall q n rest,
+  forallb (fun c => negb (c =? q)%N && negb (c =? c_nl)%N) n = true ->
+  scan_quote q (n ++ q :: rest) = Some (byte_len n).
+Proof.
+  intros q n rest. induction n as [|c n IH]; intros H.
+  - simpl. rewrite N.eqb_refl. reflexivity.
+  - simpl in H. apply andb_true_iff in H. destruct H as [Hc Hn].
+    apply andb_true_iff in Hc. destruct Hc as [Hq Hnl].
+    apply negb_true_iff in Hq. apply negb_true_iff in Hnl.
+    simpl. rewrite Hq, Hnl, IH by exact Hn. reflexivity.
+Qed.
+
+Lemma parse_token_quoted_roundtrip : parse_token_quoted_roundtrip_stmt.
+Proof.
+  intros pre q n rest Hq Hne Hn src. subst src.
+  assert (Hq1 : len_utf8 q = 1) by (destruct Hq; subst q; reflexivity).
+  assert (Hqq : ((q =? c_dq) || (q =? c_sq))%N = true) by (destruct Hq; subst q; reflexivity).
+  assert (Hsl : slice (pre ++ q :: n ++ q :: rest) (byte_len pre + 1) (byte_len pre + 1 + byte_len n) = Done n).
+  { rewrite (snoc_app pre q). rewrite <- Hq1 at 1 2. rewrite <- byte_len_snoc. apply slice_app. }
+  split; [|exact Hsl].
+  unfold parse_token. rewrite slice_from_app. cbn [obind].
+  destruct n as [|c1 n']; [congruence|].
+  simpl in Hn. apply andb_true_iff in Hn. destruct Hn as [Hc1 Hn'].
+  apply andb_true_iff in Hc1. destruct Hc1 as [_ Hc1nl]. apply negb_true_iff in Hc1nl.
+  cbn [app re_token]. rewrite Hqq. rewrite Hc1nl. rewrite scan_quote_app by exact Hn'.
+  rewrite next_char_app. cbn [obind]. rewrite Hqq.
+  assert (He : byte_len pre + (1 + len_utf8 c1 + byte_len n' + 1) = byte_len pre + 1 + byte_len (c1 :: n') + 1)
+    by (simpl; lia).
+  rewrite He.
+  destruct (Nat.eqb_spec (byte_len pre + 1 + byte_len (c1 :: n') + 1) 0); [lia|].
+  replace (byte_len pre + 1 + byte_len (c1 :: n') + 1 - 1) with (byte_len pre + 1 + byte_len (c1 :: n')) by lia.
+  change (pre ++ q :: c1 :: n' ++ q :: rest) with (pre ++ q :: (c1 :: n') ++ q :: rest).
+  rewrite Hsl. cbn [obind]. unfold mk_span.
+  destruct (Nat.ltb_spec (byte_len pre + 1 + byte_len (c1 :: n')) (byte_len pre + 1)); [lia|].
+  cbn [obind].
+  replace (byte_len pre + 1 + byte_len (c1 :: n') + 1) with (byte_len pre + byte_len (c1 :: n') + 2) by lia.
+  reflexivity.
+Qed.
+
+Lemma char_at_app : forall pre c tl, char_at (pre ++ c :: tl) (byte_len pre) = Done (Some c).
+Proof. intros. unfold char_at. rewrite slice_from_app. reflexivity. Qed.
+
+Lemma pos_facts : forall src p c tl, src = p ++ c :: tl ->
+  (byte_len p <? byte_len src) = true /\ next_char src (byte_len p) = Done c
+  /\ char_at src (byte_len p) = Done (Some c).
+Proof.
+  intros src p c tl H. subst src. split; [apply lt_len_app|]. split; [apply next_char_app|apply char_at_app].
+Qed.
+
+Lemma quote_facts : forall q, q = c_sq \/ q = c_dq ->
+  len_utf8 q = 1 /\ is_nl q = false /\ (c_bslash =? q)%N = false.
+Proof. intros q [H|H]; subst q; repeat split; reflexivity. Qed.
+
+Lemma string_loop_escaped : forall q v body, escaped q v body -> (q = c_sq \/ q = c_dq) ->
+  forall src pre0 chunk rest s f,
+  src = pre0 ++ chunk ++ body ++ q :: rest ->
+  List.length body + 1 <= f ->
+  string_loop src (byte_len src) f q (byte_len pre0) (byte_len pre0 + byte_len chunk) s
+  = Done (Ok (byte_len pre0 + byte_len chunk + byte_len body + 1, s ++ chunk ++ v)).
+Proof.
+  intros q v body He Hq. destruct (quote_facts q Hq) as [Hq1 [Hqnl Hbq]].
+  induction He as [|c v b Hcq Hcb Hcnl He IH | c v b Hc He IH]; intros src pre0 chunk rest s f Hsrc Hf.
+  - destruct f as [|f]; [simpl in Hf; lia|]. cbn [string_loop].
+    assert (Hs : src = (pre0 ++ chunk) ++ q :: rest) by (rewrite Hsrc; rewrite <- app_assoc; reflexivity).
+    destruct (pos_facts _ _ _ _ Hs) as [Hlt [Hnc _]]. rewrite byte_len_app in Hlt, Hnc.
+    rewrite Hlt. cbn [negb]. rewrite Hnc. cbn [obind]. rewrite Hqnl. rewrite N.eqb_refl.
+    assert (Hsl : slice src (byte_len pre0) (byte_len pre0 + byte_len chunk) = Done chunk)
+      by (rewrite Hsrc; apply slice_app).
+    rewrite Hsl. cbn [obind].
+    rewrite app_nil_r. simpl byte_len. rewrite Nat.add_0_r. reflexivity.
+  - destruct f as [|f]; [simpl in Hf; lia|]. cbn [string_loop].
+    assert (Hs : src = (pre0 ++ chunk) ++ c :: b ++ q :: rest)
+      by (rewrite Hsrc; repeat rewrite <- app_assoc; reflexivity).
+    destruct (pos_facts _ _ _ _ Hs) as [Hlt [Hnc _]]. rewrite byte_len_app in Hlt, Hnc.
+    rewrite Hlt. cbn [negb]. rewrite Hnc. cbn [obind]. rewrite Hcnl.
+    apply N.eqb_neq in Hcq. apply N.eqb_neq in Hcb. rewrite Hcq, Hcb.
+    replace (byte_len pre0 + byte_len chunk + len_utf8 c) with (byte_len pre0 + byte_len (chunk ++ [c]))
+      by (rewrite byte_len_snoc; lia).
+    rewrite (IH src pre0 (chunk ++ [c]) rest s f).
+    + rewrite byte_len_snoc. simpl byte_len. rewrite <- app_assoc. cbn [app].
+      f_equal. f_equal. f_equal. lia.
+    + rewrite Hsrc. repeat rewrite <- app_assoc. reflexivity.
+    + simpl in Hf. lia.
+  - destruct f as [|f]; [simpl in Hf; lia|]. cbn [string_loop].
+    assert (Hs : src = (pre0 ++ chunk) ++ c_bslash :: c :: b ++ q :: rest)
+      by (rewrite Hsrc; repeat rewrite <- app_assoc; reflexivity).
+    destruct (pos_facts _ _ _ _ Hs) as [Hlt [Hnc _]]. rewrite byte_len_app in Hlt, Hnc.
+    rewrite Hlt. cbn [negb]. rewrite Hnc. cbn [obind]. change (is_nl c_bslash) with false. rewrite Hbq.
+    rewrite N.eqb_refl.
+    assert (Hs2 : src = ((pre0 ++ chunk) ++ [c_bslash]) ++ c :: b ++ q :: rest)
+      by (rewrite Hs; repeat rewrite <- app_assoc; reflexivity).
+    destruct (pos_facts _ _ _ _ Hs2) as [_ [_ Hca]]. rewrite byte_len_snoc, byte_len_app in Hca.
+    change (len_utf8 c_bslash) with 1 in Hca. rewrite Hca. cbn [obind].
+    assert (Hcq : ((c =? c_sq) || (c =? c_dq))%N = true) by (destruct Hc; subst c; reflexivity).
+    rewrite Hcq.
+    assert (Hsl : slice src (byte_len pre0) (byte_len pre0 + byte_len chunk) = Done chunk)
+      by (rewrite Hsrc; apply slice_app).
+    rewrite Hsl. cbn [obind].
+    assert (Hc1 : len_utf8 c = 1) by (destruct Hc; subst c; reflexivity).
+    pose proof (IH src ((pre0 ++ chunk) ++ [c_bslash]) [c] rest (s ++ chunk) f Hs2) as IH'.
+    rewrite byte_len_snoc, byte_len_app in IH'. simpl byte_len in IH'. rewrite Hc1 in IH'.
+    change (len_utf8 c_bslash) with 1 in IH'.
+    replace (byte_len pre0 + byte_len chunk + 2) with (byte_len pre0 + byte_len chunk + 1 + (1 + 0)) by lia.
+    rewrite IH' by (simpl in Hf; lia).
+    simpl byte_len. change (len_utf8 c_bslash) with 1. rewrite Hc1.
+    rewrite <- app_assoc. cbn [app].
+    f_equal. f_equal. f_equal. lia.
+Qed.
+Lemma parse_string_roundtrip : parse_string_roundtrip_stmt.
+Proof.
+  intros pre q v body rest Hq He src.
+  destruct (quote_facts q Hq) as [Hq1 _].
+  assert (Hloop : string_loop src (byte_len src) (fuel_for src) q (byte_len pre + 1) (byte_len pre + 1) []
+                  = Done (Ok (byte_len pre + byte_len body + 2, v))).
+  { pose proof (string_loop_escaped q v body He Hq src (pre ++ [q]) [] rest [] (fuel_for src)) as H.
+    rewrite byte_len_snoc, Hq1 in H. simpl byte_len in H. rewrite Nat.add_0_r in H.
+    rewrite H.
+    - cbn [app]. f_equal. f_equal. f_equal. lia.
+    - subst src. rewrite <- app_assoc. reflexivity.
+    - subst src. unfold fuel_for. rewrite byte_len_app. simpl byte_len. rewrite byte_len_app.
+      pose proof (length_le_byte_len body). lia. }
+  unfold parse_string, lookahead_is.
+  assert (Hsf : slice_from src (byte_len pre) = Done (q :: body ++ q :: rest))
+    by (subst src; apply slice_from_app).
+  rewrite Hsf. cbn [obind prefix_of].
+  destruct Hq as [Hq|Hq]; subst q.
+  - rewrite N.eqb_refl. cbn [andb obind]. exact Hloop.
+  - change (c_sq =? c_dq)%N with false. cbn [andb obind]. rewrite N.eqb_refl. cbn [andb obind].
+    exact Hloop.
+Qed.
+
+Lemma int_loop_digits : forall ds src pre rest f,
+  forallb is_digit ds = true -> not_starting is_digit rest ->
+  src = pre ++ ds ++ rest -> List.length ds + 1 <= f ->
+  int_loop src (byte_len src) f (byte_len pre) = Done (byte_len pre + List.length ds).
+Proof.
+  induction ds as [|d ds IH]; intros src pre rest f Hd Hr Hsrc Hf.
+  - destruct f as [|f]; [simpl in Hf; lia|]. cbn [int_loop]. cbn [app] in Hsrc.
+    destruct rest as [|c r].
+    + subst src. rewrite app_nil_r, Nat.ltb_irrefl. cbn [negb]. simpl. f_equal. lia.
+    + destruct (pos_facts _ _ _ _ Hsrc) as [Hlt [Hnc _]]. rewrite Hlt, Hnc. cbn [negb obind].
+      simpl in Hr. rewrite Hr. simpl. f_equal. lia.
+  - destruct f as [|f]; [simpl in Hf; lia|]. cbn [int_loop].
+    simpl in Hd. apply andb_true_iff in Hd. destruct Hd as [Hd Hds].
+    assert (Hs : src = pre ++ d :: ds ++ rest) by (rewrite Hsrc; reflexivity).
+    destruct (pos_facts _ _ _ _ Hs) as [Hlt [Hnc _]]. rewrite Hlt, Hnc. cbn [negb obind]. rewrite Hd.
+    pose proof (IH src (pre ++ [d]) rest f Hds Hr) as IH'.
+    rewrite byte_len_snoc, (ascii_len1 d (is_digit_ascii d Hd)) in IH'.
+    rewrite IH'.
+    + simpl. f_equal. lia.
+    + rewrite Hs, <- app_assoc. reflexivity.
+    + simpl in Hf. lia.
+Qed.
+
+Lemma parse_int_roundtrip : parse_int_roundtrip_stmt.
+Proof.
+  intros pre ds rest v Hne Hd Hv Hr src.
+  assert (Hbl : byte_len ds = List.length ds) by (apply (byte_len_ascii is_digit ds is_digit_ascii Hd)).
+  assert (Hsl : slice src (byte_len pre) (byte_len pre + byte_len ds) = Done ds)
+    by (subst src; apply slice_app).
+  split; [|exact Hsl].
+  unfold parse_int.
+  rewrite (int_loop_digits ds src pre rest (fuel_for src) Hd Hr eq_refl).
+  - cbn [obind]. rewrite <- Hbl. rewrite Hsl. cbn [obind]. rewrite Hv. reflexivity.
+  - subst src. unfold fuel_for. rewrite !byte_len_app. lia.
+Qed.
+
+Lemma fold_dec_value : forall ds acc,
+  fold_left (fun a c => (a * 10 + (c - 48))%N) ds acc = dec_value acc ds.
+Proof. induction ds as [|d ds IH]; intros acc; simpl; [reflexivity | apply IH]. Qed.
+
+Lemma parse_usize_value : parse_usize_value_stmt.
+Proof.
+  intros ds Hne Hle. unfold parse_usize. destruct ds as [|d ds]; [congruence|].
+  rewrite fold_dec_value. apply N.leb_le in Hle. rewrite Hle. reflexivity.
+Qed.
+
+(* the code as it is: "/*\n/ */" followed by "x" — the scan stops at the '/' after the newline
+   (the implementation's answer on "%%\nA: /* a\n// b */ 'a';" is replayed by checks/c10_parser.py) *)
+Lemma ws_skips_layout_refuted : ws_skips_layout_refuted_stmt.
+Proof.
+  exists [], [c_slash; c_star; c_nl; c_slash; c_sp; c_star; c_slash], [120%N], 0.
+  split; [|split].
+  - change [c_slash; c_star; c_nl; c_slash; c_sp; c_star; c_slash]
+      with ((c_slash :: c_star :: [c_nl; c_slash; c_sp] ++ [c_star; c_slash]) ++ []).
+    apply LT_cons; [apply LI_block; reflexivity | apply LT_nil].
+  - simpl. split; [reflexivity | intro H; discriminate H].
+  - vm_compute. intro H; discriminate H.
+Qed.
